@@ -84,6 +84,7 @@ add_leg('C20', 'D_deadline_two_readers', 1, 10, 1, 10)
 add_leg('C20', 'D_write_deadline_moved', 3000, 30, 100000, 600)
 add_leg('C20', 'D_gate_token', 12000, 60, 400000, 900)
 add_leg('C16', 'C16r', 4000, 60, 300000, 1200)
+add_leg('C16', 'C16s', 3000, 60, 200000, 900)
 add_leg('C16', 'D_seq_shift', 1, 10, 1, 10)
 add_leg('C16', 'C16w', 48, 120, 4000, 1800)
 add_leg('C05', 'C16w', 32, 120, 2000, 1200)
